@@ -47,6 +47,16 @@ CHECKS.update({
         "note": TRUST + " Dot/timing/trajectory operators and interpreted functions are not enumerated; numeric types unbounded; acceptance of interval-dependent numeric pairs is not judged.",
         "technique": "TLA+ reference substitution evaluated by TLC over a TLC-enumerated case space; recorded results judged syntactically and semantically",
     },
+    "C15": {
+        "text": "TypeInfer.tla: reference interval inference with exact rational arithmetic (information only) and the soundness judge: for all valuations of the leaves on a critical-point grid the exact value of the expression (UPExpr!Eval) lies in the inferred interval and is integral when the inferred type is int; unbounded sides decided by hull clauses; Boolean/user types exact; EqWellFormed symmetric by definition. TLC enumerates numeric expressions over every bound form x {int, real}, non-dyadic and negative constants, BigArith magnitudes, and ALL ordered pairs of typed operands for Equals; each is built on a fresh Environment; recorded types (exact Fractions) and accept/reject are judged.",
+        "note": TRUST + " Soundness judged on critical points, not by SMT (exact when each fluent occurs once and divisors are constants); integrality not judged for big constants; fluents 0-ary.",
+        "technique": "TLA+ interval semantics evaluated by TLC over TLC-enumerated expressions and operand pairs; recorded inferred types judged",
+    },
+    "C20": {
+        "text": "ProtoForms.tla defines the form space (numeric type forms, constants up to and beyond int64 via BigArith limbs, timepoint kinds x delays, interval openness, effect kinds, metric kinds, plan kinds, result kinds): TLC emits 657 minimal artefacts, one per combination; plus generated problems with plans/results and the bundled examples. Each goes through ProtobufWriter -> bytes -> ProtobufReader; ProtoJudge.tla decides NormUPJ(project(read(write(x)))) = NormUPJ(project(x)) by TLC value equality (bags where the model holds unordered collections), kind equality, and the implementation's own ==.",
+        "note": TRUST + " Thinnest use of the technique (a codec has one transition): the specification contributes the exhaustive form space and the independent notion of equality. Scheduling problems, hierarchical plans and schedules are judged by == and kind only.",
+        "technique": "TLC-enumerated form space; round-trip results judged by TLC value equality on the abstract projection",
+    },
     "C17": {
         "text": "Linear.tla decides semantic monotonicity and affinity of a numeric expression by exhaustive evaluation on the finite declared domains (exact rationals via UPExpr!Eval); LinearAnalysis.tla models the checker's walk rules (as written and repaired) and TLC compares both with the real answers. TLC enumerates expressions to depth 2 (3-4 thorough) over bounded int fluents, a bounded parameter (negative and sign-straddling ranges), a static fluent and constants; LinearChecker.get_fluents (and Problem.kind's SIMPLE_NUMERIC_PLANNING decision) are recorded and judged: only-positive => non-decreasing, only-negative => non-increasing, linear => affine.",
         "note": TRUST + " Domains are small integer boxes (3-4 values per fluent); nullary fluents; soundness only (an over-conservative analysis passes).",
